@@ -574,20 +574,39 @@ def rich_seeds(ck):
 
     K = lambda k: F.fcc(k)
     norm, mul, scrn = K(b"norm"), K(b"mul "), K(b"scrn")
-    col = lambda *v: [0, list(v)]
-    fx = lambda items: F.obj_effects([0, [[F.FXK[k], e] for k, e in items]]).tobytes()
-    fx_a = fx([("cmnS", ["common", 0, 1]),
-               ("dsdw", ["shadow", 2, 5, 80, 120, 7, col(0, 0, 0, 0), mul, 1, 1, 191, col(0, 0, 0, 0)]),
-               ("isdw", ["shadow", 0, 3, 60, 30, 4, col(65535, 0, 0, 0), mul, 0, 0, 100, col(65535, 0, 0, 0)]),
-               ("oglw", ["oglow", 2, 6, 200, col(65535, 65535, 48000, 0), scrn, 1, 191, col(65535, 65535, 48000, 0)]),
-               ("iglw", ["iglow", 2, 6, 200, col(65535, 65535, 48000, 0), scrn, 1, 191, 0, col(65535, 65535, 48000, 0)]),
-               ("bevl", ["bevel", 2, 120, 5, 5, scrn, mul, col(65535, 65535, 65535, 0), col(0, 0, 0, 0), 1, 75, 75, 1, 1, 0,
-                         [col(65535, 32768, 0, 0), col(0, 32768, 65535, 0)]]),
-               ("sofi", ["sofi", 2, norm, col(65535, 0, 0, 0), 255, 1, col(65535, 0, 0, 0)])])
-    fx_b = fx([("cmnS", ["common", 0, 1]),
-               ("oglw", ["oglow", 0, 6, 200, col(1, 2, 3, 0), scrn, 1, 191, None]),
-               ("iglw", ["iglow", 0, 6, 200, col(1, 2, 3, 0), scrn, 1, 191, None, None]),
-               ("bevl", ["bevel", 0, 120, 5, 5, scrn, mul, col(65535, 65535, 65535, 0), col(0, 0, 0, 0), 1, 75, 75, 1, 1, 0, None])])
+    # the 'lrFX' payloads are assembled by hand (not with the class writers of the tree under test), with a Color in EVERY colour
+    # space - RGB 0, HSB 1, CMYK 2, Lab 7 (signed a/b: negative and positive), GRAYSCALE 8, a custom space 9 - and component extremes
+    def color(space, *v):
+        return struct.pack(">H", space) + struct.pack(">4h" if space == 7 else ">4H", *v)
+
+    def fxrec(key, body):
+        return b"8BIM" + key + _I(len(body)) + body
+
+    def shadow(version, c, native):
+        return struct.pack(">IIIiI", version, 5, 80, 120, 7) + c + b"8BIMmul " + bytes([1, 1, 191]) + native
+
+    def glow(version, c, extra):
+        return struct.pack(">III", version, 6, 200) + c + b"8BIMscrn" + bytes([1, 191]) + extra
+
+    def bevel(version, hc, sc, real):
+        return struct.pack(">IiII", version, 120, 5, 5) + b"8BIMscrn" + b"8BIMmul " + hc + sc + bytes([1, 75, 75, 1, 1, 0]) + real
+
+    def fx(records):
+        body = struct.pack(">HH", 0, len(records)) + b"".join(fxrec(k, b) for k, b in records)
+        return body + b"\0" * (-len(body) % 4)
+
+    lab_neg, lab_pos = color(7, 32767, -32768, -1, 0), color(7, 0, 32767, 1, -32768)
+    fx_a = fx([(b"cmnS", struct.pack(">IB2x", 0, 1)),
+               (b"dsdw", shadow(2, color(1, 0, 0x7FFF, 0x8000, 0xFFFF), color(2, 0xFFFF, 0x8000, 0x7FFF, 0))),
+               (b"isdw", shadow(0, lab_neg, color(8, 0x8000, 0, 0, 0))),
+               (b"oglw", glow(2, lab_pos, color(0, 65535, 65535, 48000, 0))),
+               (b"iglw", glow(2, color(8, 0xFFFF, 0, 0, 0), bytes([0]) + lab_neg)),
+               (b"bevl", bevel(2, color(0, 65535, 65535, 65535, 0), lab_neg, lab_pos + color(9, 0, 0x7FFF, 0x8000, 0xFFFF))),
+               (b"sofi", struct.pack(">I", 2) + b"8BIMnorm" + color(2, 1, 2, 3, 4) + bytes([255, 1]) + lab_neg)])
+    fx_b = fx([(b"cmnS", struct.pack(">IB2x", 0, 1)),
+               (b"oglw", glow(0, color(1, 1, 2, 3, 0), b"")),
+               (b"iglw", glow(0, lab_pos, b"")),
+               (b"bevl", bevel(0, color(8, 0x7FFF, 0, 0, 0), color(7, -1, -2, -3, -4), b""))])
     sd = lambda *a: SectionDividerSetting(*a).tobytes()
     lsct16 = sd(SectionDivider.OPEN_FOLDER, b"8BIM", BlendMode.PASS_THROUGH, 1)
     lsct12 = sd(SectionDivider.CLOSED_FOLDER, b"8BIM", BlendMode.NORMAL)
@@ -719,7 +738,12 @@ def run():
     t_coq = _t.time() - ck.t0
     # ---- inputs
     inputs, meta = [], {}
-    rich = rich_seeds(ck)
+    try:
+        rich = rich_seeds(ck)
+        ck.obligations.append(("class-built-seeds", True, ""))
+    except Exception as e:      # the descriptor / pattern / divider payloads of these seeds are written by the tree under test
+        rich = []
+        ck.obligations.append(("class-built-seeds", False, "building the payload-rich seeds raised %r" % (e,)))
     seedlist = list(c06.seeds(ck)) + tiny_seeds(ck) + rich
     richnames = {n for n, _ in rich if not n.endswith("+sig64")}
     for name, b in seedlist:
